@@ -20,7 +20,8 @@
      fmt <d|f|i|u> <value text>           -> <len> <bytes touched> <hex text>
      asan                                 -> first lines of the last AddressSanitizer report
    flags: 1 unquote, 2 noenum, 4 skip_default, 8 force_default.  ok = output equals the reference, is zero
-   terminated and its length equals the return value and get_buffer's length. */
+   terminated and its length equals the return value and get_buffer's length; for the growing buffer also the block
+   returned by flatcc_json_printer_finalize_dynamic_buffer (ok = 2: no terminator at result[len] inside that block). */
 #define _GNU_SOURCE
 #include "hx.h"
 #include <signal.h>
@@ -199,12 +200,28 @@ static void print_dyn(size_t size, int flags, int indent, struct res *r, int mak
             free(g_ref); g_ref = (char *)malloc(n + 1); memcpy(g_ref, b, n); g_ref[n] = 0; g_reflen = n;
             g_refret = ((int)n == r->ret && b[n] == 0) ? r->ret : -3;
             r->ok = g_refret >= 0;
-        } else r->ok = (int)n == r->ret && is_ref(b, n, r->ret);
+        } else {
+            /* the growing buffer is also finished the way callers keep the text: finalize_dynamic_buffer hands the block
+               over (exact-size guarded allocator): its length, bytes and terminator must be the same, the terminator
+               inside the block.  ok = 2: the returned block does not hold a terminator at result[len]. */
+            int nrs_print = g_nrs; size_t fn = 0; char *fb;
+            r->ok = (int)n == r->ret && is_ref(b, n, r->ret);
+            g_fail_at = 0;
+            fb = (char *)flatcc_json_printer_finalize_dynamic_buffer(&ctx, &fn);
+            g_nrs = nrs_print;            /* a shrinking realloc of finalize is not an enlargement: not part of the oracle */
+            if (!fb) r->ok = 0;
+            else {
+                size_t have = ((struct ps_hdr *)fb - 1)->n;
+                if (have < fn + 1 || fb[fn] != 0) r->ok = r->ok ? 2 : 0;
+                else if (fn != n || strlen(fb) != fn || !is_ref(fb, fn, r->ret)) r->ok = 0;
+                ps_free(fb);
+            }
+        }
     } else if (make_ref) { g_refret = -1; g_reflen = 0; }
 done:
     disarm(); g_tracing = 0; g_fail_at = 0;
     r->ntr = g_ntr; r->trh = g_trh;
-    if (!r->hang) flatcc_json_printer_clear(&ctx);     /* scans the canaries of the final block */
+    if (!r->hang) flatcc_json_printer_clear(&ctx);     /* scans the canaries of the final block (none left after finalize) */
     r->over = g_over + (g_asan_hit ? 1000000 : 0);
 }
 
